@@ -523,9 +523,6 @@ Qed.
 End Full.
 
 (* ------------------------------------------------------------------ rtr_mgr_close_less_preferable_groups *)
-Section Close.
-Context (v : variant) (Hv : fix_shutdown_counts_closed v = true) (c : store) (Hc : conf_ok c).
-
 Definition prefs (l : list group) : list nat := map g_pref l.
 Definition in_range (l : list group) : Prop := Forall (fun q => (q < 256)%nat) (prefs l).
 
@@ -545,6 +542,9 @@ Lemma gtb_nat a b : (Z.of_nat a >? Z.of_nat b) = (b <? a)%nat.
 Proof. destruct (Nat.ltb_spec b a); [apply Z.gtb_lt; lia | rewrite Z.gtb_ltb; apply Z.ltb_ge; lia]. Qed.
 Lemma ltb_nat a b : (Z.of_nat a <? Z.of_nat b) = (a <? b)%nat.
 Proof. destruct (Nat.ltb_spec a b); [apply Z.ltb_lt; lia | apply Z.ltb_ge; lia]. Qed.
+
+Section Close.
+Context (v : variant) (Hv : fix_shutdown_counts_closed v = true) (c : store) (Hc : conf_ok c).
 
 Lemma stop_group_pref bh g : g_pref (fst (stop_group v bh g)) = g_pref g.
 Proof. unfold stop_group. destruct (stop_loop v bh (g_pref g) (g_status g) [] (g_socks g)) as [[s st] o]. reflexivity. Qed.
@@ -642,3 +642,357 @@ Proof.
   destruct (map_out (close_one v (g_pref g) (g_pref g, k)) post) as [post' o3]. cbn [fst snd app]. reflexivity.
 Qed.
 End Close.
+
+(* ------------------------------------------------------------------ _rtr_mgr_cb_state_established *)
+Section Established.
+Context (v : variant) (Hv : fix_shutdown_counts_closed v = true) (c : store) (Hc : conf_ok c).
+
+Lemma z2b_b2z x : z2b (b2z x) = x.
+Proof. destruct x; reflexivity. Qed.
+
+Lemma allerr_loop (H : @handler out) p gi sk : forall todo done ad,
+  nth_error (prefs (done ++ todo)) gi = Some p -> in_range (done ++ todo) ->
+  mrun H (_rtr_mgr_cb_state_established__loop1 (List.length todo) (List.length done) sk (Some gi) ad
+            (enc c (done ++ todo))) =
+  Some ((None, if existsb (blocks_recovery p) todo then 0 else ad), enc c (done ++ todo), []).
+Proof.
+  induction todo as [|cur rest IH]; intros done ad Hgi Hr.
+  - reflexivity.
+  - cbn [List.length _rtr_mgr_cb_state_established__loop1 existsb].
+    pose proof (nth_mid done cur rest) as Hn.
+    destruct (nth_prefs _ _ _ Hgi) as [gg [Hgg Hpg]].
+    rewrite (hg_ok_nth c _ _ cur Hn), (hg_ok_nth c _ _ gg Hgg). rewrite !Bool.implb_true_r. cbn [mguard].
+    rewrite (hgf_status c _ _ cur Hn), (hgf_pref c _ _ cur Hn), (hgf_pref c _ _ gg Hgg), code_closed, code_error.
+    rewrite (wraps_pref _ (range_nth _ _ _ Hr Hn)), (wraps_pref _ (range_nth _ _ _ Hr Hgg)), Hpg, ltb_nat.
+    cbn [gp_eqb].
+    assert (Hcond : (negb (List.length done =? gi)%nat && negb (st_error (g_status cur))
+                     && negb (st_closed (g_status cur)) && (g_pref cur <? p)%nat) = blocks_recovery p cur).
+    { unfold blocks_recovery.
+      destruct (Nat.eqb_spec (List.length done) gi) as [He|He]; [|reflexivity].
+      subst gi. rewrite Hn in Hgg. injection Hgg as <-. rewrite Hpg, Nat.ltb_irrefl, !andb_false_r. reflexivity. }
+    rewrite Hcond. clear Hcond.
+    specialize (IH (done ++ [cur])%list). rewrite len_snoc, app_snoc in IH.
+    destruct (blocks_recovery p cur); cbn [orb].
+    + rewrite (IH (b2z (z2b 0)) Hgi Hr). destruct (existsb (blocks_recovery p) rest); reflexivity.
+    + rewrite (IH ad Hgi Hr). reflexivity.
+Qed.
+
+Lemma blocks_skip_self a g b :
+  existsb (blocks_recovery (g_pref g)) (a ++ g :: b) = existsb (blocks_recovery (g_pref g)) (a ++ b).
+Proof.
+  rewrite !existsb_app. cbn [existsb]. unfold blocks_recovery at 2.
+  rewrite Nat.ltb_irrefl, andb_false_r. reflexivity.
+Qed.
+
+Lemma establish_run a g b k :
+  in_range (a ++ g :: b) ->
+  mrun (HM (Some (g_pref g)))
+    (mbind (set_status_gen (Some (List.length a)) (wrapu 32 2) (List.length a, k) (enc c (a ++ g :: b))) (fun _ h =>
+     mbind (rtr_mgr_close_less_preferable_groups_gen (List.length a, k) (Some (List.length a)) h) (fun _ h => MRet 0 h))) =
+  Some (0, enc c (fst (establish v a g b (g_pref g, k))), snd (establish v a g b (g_pref g, k))).
+Proof.
+  intros Hr. rewrite mrun_bind. change (wrapu 32 2) with (gstatus_code GEstablished).
+  rewrite (set_status_self (HM (Some (g_pref g))) (HM_handles_status _) c Hc).
+  unfold set_status. cbn [fst snd]. rewrite mrun_bind.
+  rewrite (close_less_tie v Hv c Hc (g_pref g)).
+  - rewrite establish_as_walk. cbn [fst snd mrun]. rewrite app_nil_r. reflexivity.
+  - unfold prefs. rewrite nth_error_map', nth_mid. reflexivity.
+  - unfold in_range in *. rewrite (prefs_mid a _ g b); [exact Hr|reflexivity].
+Qed.
+
+Theorem cb_established_tie a g b k :
+  in_range (a ++ g :: b) ->
+  mrun (HM (Some (g_pref g))) (_rtr_mgr_cb_state_established_gen (List.length a, k) (Some (List.length a))
+                                 (enc c (a ++ g :: b))) =
+  Some (0, enc c (fst (cb_established v a g b (g_pref g, k))), snd (cb_established v a g b (g_pref g, k))).
+Proof.
+  intros Hr. unfold _rtr_mgr_cb_state_established_gen.
+  pose proof (nth_mid a g b) as Hn.
+  rewrite (hg_ok_nth c _ _ g Hn). cbn [mguard].
+  rewrite (hgf_status c _ _ g Hn), code_connecting, code_error.
+  unfold cb_established.
+  destruct (g_status g) eqn:Est; cbn [st_error].
+  - reflexivity.
+  - rewrite mrun_bind, (is_synced_tie _ c _ _ g Hn), z2b_b2z.
+    destruct (group_synced g).
+    + rewrite (establish_run a g b k Hr). cbn [app]. reflexivity.
+    + rewrite mrun_bind. change (wrapu 32 1) with (gstatus_code GConnecting).
+      rewrite (set_status_self (HM (Some (g_pref g))) (HM_handles_status _) c Hc). reflexivity.
+  - reflexivity.
+  - rewrite mrun_bind, hnodes_enc.
+    pose proof (allerr_loop (HM (Some (g_pref g))) (g_pref g) (List.length a) (List.length a, k) (a ++ g :: b) [] (b2z (z2b 1))) as L.
+    cbn [List.length app] in L. rewrite L; [|unfold prefs; rewrite nth_error_map', nth_mid; reflexivity|exact Hr].
+    clear L. rewrite blocks_skip_self.
+    destruct (existsb (blocks_recovery (g_pref g)) (a ++ b)); cbn [negb andb].
+    + change (z2b (wraps 32 0)) with false. cbv beta iota.
+      rewrite mrun_bind. change (wrapu 32 3) with (gstatus_code GError).
+      rewrite (set_status_self (HM (Some (g_pref g))) (HM_handles_status _) c Hc). reflexivity.
+    + change (z2b (wraps 32 (b2z (z2b 1)))) with true. cbv beta iota.
+      rewrite mrun_bind, (is_synced_tie _ c _ _ g Hn), z2b_b2z.
+      destruct (group_synced g).
+      * rewrite (establish_run a g b k Hr). cbn [app]. reflexivity.
+      * rewrite mrun_bind. change (wrapu 32 3) with (gstatus_code GError).
+        rewrite (set_status_self (HM (Some (g_pref g))) (HM_handles_status _) c Hc). reflexivity.
+Qed.
+End Established.
+
+(* ------------------------------------------------------------------ _rtr_mgr_cb_state_error *)
+Definition closedp (x : group) : bool := st_closed (g_status x).
+
+Lemma split_first_app {A} (f : A -> bool) : forall l x y z,
+  split_first f l = Some (x, y, z) -> l = (x ++ y :: z)%list.
+Proof.
+  induction l as [|e r IH]; intros x y z; cbn [split_first]; [discriminate|].
+  destruct (f e).
+  - intros [= <- <- <-]. reflexivity.
+  - destruct (split_first f r) as [[[x' y'] z']|]; [|discriminate].
+    intros [= <- <- <-]. cbn [app]. f_equal. now apply IH.
+Qed.
+
+Lemma start_first_closed_split : forall l,
+  start_first_closed l =
+  match split_first closedp l with
+  | Some (x, y, z) => Some ((x ++ fst (fst (start_sockets y)) :: z)%list, snd (start_sockets y))
+  | None => None
+  end.
+Proof.
+  induction l as [|e r IH]; cbn [start_first_closed split_first]; [reflexivity|].
+  unfold closedp at 1. destruct (st_closed (g_status e)).
+  - destruct (start_sockets e) as [[g' ok] o]. reflexivity.
+  - rewrite IH. destruct (split_first closedp r) as [[[x y] z]|]; reflexivity.
+Qed.
+
+Lemma fcf_outside gi : forall l i, (gi < i \/ i + List.length l <= gi)%nat ->
+  first_closed_from gi i l =
+  match split_first closedp l with Some (x, _, _) => Some (i + List.length x)%nat | None => None end.
+Proof.
+  induction l as [|e r IH]; intros i Hi; cbn [first_closed_from split_first]; [reflexivity|].
+  cbn [List.length] in Hi.
+  assert (Hne : (i =? gi)%nat = false) by (apply Nat.eqb_neq; lia).
+  rewrite Hne. cbn [negb andb]. unfold closedp at 1.
+  destruct (st_closed (g_status e)).
+  - cbn [List.length]. f_equal. lia.
+  - rewrite IH by lia. destruct (split_first closedp r) as [[[x y] z]|]; [|reflexivity].
+    cbn [List.length]. f_equal. lia.
+Qed.
+
+Lemma fcf_mid g b : forall a i,
+  first_closed_from (i + List.length a) i (a ++ g :: b) =
+  match split_first closedp a with
+  | Some (x, _, _) => Some (i + List.length x)%nat
+  | None => match split_first closedp b with
+            | Some (x, _, _) => Some (i + List.length (a ++ g :: x))%nat
+            | None => None
+            end
+  end.
+Proof.
+  induction a as [|e r IH]; intros i; cbn [app first_closed_from split_first List.length].
+  - rewrite Nat.add_0_r, Nat.eqb_refl. cbn [negb andb]. rewrite fcf_outside by lia.
+    destruct (split_first closedp b) as [[[x y] z]|]; [|reflexivity]. f_equal. lia.
+  - assert (Hne : (i =? i + S (List.length r))%nat = false) by (apply Nat.eqb_neq; lia).
+    rewrite Hne. cbn [negb andb]. unfold closedp at 1.
+    destruct (st_closed (g_status e)).
+    + cbn [List.length]. f_equal. lia.
+    + replace (i + S (List.length r))%nat with (S i + List.length r)%nat by lia. rewrite IH.
+      destruct (split_first closedp r) as [[[x y] z]|].
+      * cbn [List.length]. f_equal. lia.
+      * destruct (split_first closedp b) as [[[x y] z]|]; [|reflexivity]. f_equal. lia.
+Qed.
+
+Section ErrorAndCb.
+Context (v : variant) (Hv : fix_shutdown_counts_closed v = true) (c : store) (Hc : conf_ok c).
+
+Lemma run_then_ret (H : @handler out) (e : meff Z) r h o :
+  mrun H e = Some (r, h, o) -> mrun H (mbind e (fun _ h => MRet 0 h)) = Some (0, h, o).
+Proof. intros He. rewrite mrun_bind, He. cbn [mrun]. now rewrite app_nil_r. Qed.
+
+Theorem cb_error_tie bh a g b k :
+  mrun (HM bh) (_rtr_mgr_cb_state_error_gen (List.length a, k) (Some (List.length a)) (enc c (a ++ g :: b))) =
+  Some (0, enc c (fst (cb_error a g b (g_pref g, k))), snd (cb_error a g b (g_pref g, k))).
+Proof.
+  unfold _rtr_mgr_cb_state_error_gen. rewrite mrun_bind. change (wrapu 32 3) with (gstatus_code GError).
+  rewrite (set_status_self (HM bh) (HM_handles_status _) c Hc).
+  unfold cb_error, set_status. cbn [fst snd].
+  set (g1 := mkGroup (g_pref g) GError (g_socks g)).
+  rewrite mrun_bind, is_some_established_tie, z2b_b2z.
+  destruct (existsb (fun x => st_established (g_status x)) (a ++ g1 :: b)).
+  - reflexivity.
+  - rewrite mrun_bind, get_best_inactive_tie.
+    pose proof (fcf_mid g1 b a 0) as F. cbn [plus] in F. rewrite F. clear F.
+    rewrite !start_first_closed_split.
+    destruct (split_first closedp a) as [[[x y] z]|] eqn:Ea.
+    + apply split_first_app in Ea. subst a. cbn [gp_nonnull].
+      rewrite <- app_assoc. cbn [app].
+      rewrite (run_then_ret _ _ _ _ _ (start_sockets_tie c bh x y (z ++ g1 :: b))).
+      cbn [fst snd mrun app]. rewrite <- ?app_assoc. reflexivity.
+    + destruct (split_first closedp b) as [[[x y] z]|] eqn:Eb.
+      * apply split_first_app in Eb. subst b. cbn [gp_nonnull].
+        replace (a ++ g1 :: x ++ y :: z)%list with ((a ++ g1 :: x) ++ y :: z)%list by (rewrite <- app_assoc; reflexivity).
+        rewrite (run_then_ret _ _ _ _ _ (start_sockets_tie c bh (a ++ g1 :: x) y z)).
+        cbn [fst snd mrun app]. rewrite <- ?app_assoc. reflexivity.
+      * reflexivity.
+Qed.
+
+(* ------------------------------------------------------------------ rtr_mgr_cb: the switch *)
+Lemma cb_gen_null sk st h : rtr_mgr_cb_gen sk st None h = MRet 0 h.
+Proof. reflexivity. Qed.
+Lemma cb_gen_established sk g h :
+  rtr_mgr_cb_gen sk (sstate_code SEstablished) (Some g) h =
+  mbind (_rtr_mgr_cb_state_established_gen sk (Some g) h) (fun _ h => MRet 0 h).
+Proof. reflexivity. Qed.
+Lemma cb_gen_connecting sk g h :
+  rtr_mgr_cb_gen sk (sstate_code SConnecting) (Some g) h =
+  mbind (_rtr_mgr_cb_state_connecting_gen sk (Some g) h) (fun _ h => MRet 0 h).
+Proof. reflexivity. Qed.
+Lemma cb_gen_error sk g h st :
+  st = SErrFatal \/ st = SErrTransport \/ st = SErrNoData ->
+  rtr_mgr_cb_gen sk (sstate_code st) (Some g) h =
+  mbind (_rtr_mgr_cb_state_error_gen sk (Some g) h) (fun _ h => MRet 0 h).
+Proof. intros [->|[->| ->]]; reflexivity. Qed.
+Lemma cb_gen_other sk g h st :
+  st = SReset \/ st = SSync \/ st = SFastReconnect \/ st = SErrNoIncr \/ st = SClosed ->
+  rtr_mgr_cb_gen sk (sstate_code st) (Some g) h =
+  mguard (hg_ok h (Some g))
+    (mbind (set_status_gen (Some g) (hgf h (Some g) "status") sk h) (fun _ h => MRet 0 h)).
+Proof. intros [->|[->|[->|[->| ->]]]]; reflexivity. Qed.
+
+Lemma cb_other_tie bh a g b k :
+  mrun (HM bh) (mguard (hg_ok (enc c (a ++ g :: b)) (Some (List.length a)))
+    (mbind (set_status_gen (Some (List.length a)) (hgf (enc c (a ++ g :: b)) (Some (List.length a)) "status")
+              (List.length a, k) (enc c (a ++ g :: b))) (fun _ h => MRet 0 h))) =
+  Some (0, enc c (fst (report a g b (g_status g) (g_pref g, k))), snd (report a g b (g_status g) (g_pref g, k))).
+Proof.
+  pose proof (nth_mid a g b) as Hn.
+  rewrite (hg_ok_nth c _ _ g Hn), (hgf_status c _ _ g Hn). cbn [mguard].
+  eapply run_then_ret. rewrite (set_status_self (HM bh) (HM_handles_status _) c Hc). reflexivity.
+Qed.
+
+(* THE TIE: one callback rtr_mgr_cb(sock, state, config, group), as translated, with sock = socket k of the group at
+   position |a| of the list a ++ g :: b, does what the model's mgr_cb does: same heap (all groups' statuses and
+   sockets), same events in the same order. *)
+Theorem mgr_cb_tie a g b k st :
+  in_range (a ++ g :: b) ->
+  mrun (HM (Some (g_pref g))) (rtr_mgr_cb_gen (List.length a, k) (sstate_code st) (Some (List.length a))
+                                 (enc c (a ++ g :: b))) =
+  Some (0, enc c (fst (mgr_cb v a g b k st)), snd (mgr_cb v a g b k st)).
+Proof.
+  intros Hr. set (bh := Some (g_pref g)).
+  destruct st; unfold mgr_cb.
+  - rewrite cb_gen_connecting. eapply run_then_ret.
+    apply (cb_connecting_tie (HM bh) (HM_handles_status _) c Hc).
+  - rewrite cb_gen_established. eapply run_then_ret. apply (cb_established_tie v Hv c Hc a g b k Hr).
+  - rewrite cb_gen_other by tauto. apply cb_other_tie.
+  - rewrite cb_gen_other by tauto. apply cb_other_tie.
+  - rewrite cb_gen_other by tauto. apply cb_other_tie.
+  - rewrite (cb_gen_error _ _ _ SErrNoData) by tauto. eapply run_then_ret. apply cb_error_tie.
+  - rewrite cb_gen_other by tauto. apply cb_other_tie.
+  - rewrite (cb_gen_error _ _ _ SErrFatal) by tauto. eapply run_then_ret. apply cb_error_tie.
+  - rewrite (cb_gen_error _ _ _ SErrTransport) by tauto. eapply run_then_ret. apply cb_error_tie.
+  - rewrite cb_gen_shutdown. eapply run_then_ret.
+    rewrite (cb_shutdown_tie (HM bh) (HM_handles_status _) c Hc v Hv).
+    destruct (cb_shutdown v g k) as [g1 o]. reflexivity.
+  - rewrite cb_gen_other by tauto. apply cb_other_tie.
+Qed.
+
+(* group == NULL: nothing happens (the model has no such event) *)
+Theorem mgr_cb_null (H : @handler out) sk st h : mrun H (rtr_mgr_cb_gen sk st None h) = Some (0, h, []).
+Proof. reflexivity. Qed.
+End ErrorAndCb.
+
+(* ------------------------------------------------------------------ examples (the translated code, executed) *)
+Definition c0 : store := [("status_fp", 1); ("status_fp_data", 0)].
+Definition up : sock := mkSock SEstablished true true.       (* running, synchronised *)
+Definition conn : sock := mkSock SConnecting false true.     (* running, nothing yet *)
+Definition idle : sock := mkSock SClosed false false.        (* never started *)
+
+(* ESTABLISHED closes the less preferred: socket 1 of group 1 (CONNECTING, both sockets synchronised) reports
+   ESTABLISHED; group 2 (ESTABLISHED, two running sockets) is stopped socket by socket - each rtr_stop re-enters the
+   callback with SHUTDOWN - and reported CLOSED; group 3 (CLOSED) is left alone *)
+Example ex_established_closes_less_preferred :
+  mrun (HM (Some 1%nat))
+    (rtr_mgr_cb_gen (0%nat, 1%nat) mgr_c_RTR_ESTABLISHED (Some 0%nat)
+       (enc c0 [mkGroup 1 GConnecting [up; up]; mkGroup 2 GEstablished [up; conn]; mkGroup 3 GClosed [idle]])) =
+  Some (0, enc c0 [mkGroup 1 GEstablished [up; up]; mkGroup 2 GClosed [closed_sock; closed_sock]; mkGroup 3 GClosed [idle]],
+        [OStatus 1 GEstablished (Some (1%nat, 1%nat)) [up; up];
+         OStop 2 0 (Some 1%nat);
+         OStatus 2 GEstablished (Some (2%nat, 0%nat)) [mkSock SShutdown true true; conn];
+         OStop 2 1 (Some 1%nat);
+         OStatus 2 GClosed (Some (2%nat, 1%nat)) [closed_sock; mkSock SShutdown false true];
+         OStatus 2 GClosed (Some (1%nat, 1%nat)) [closed_sock; closed_sock]]).
+Proof. vm_compute. reflexivity. Qed.
+
+(* ERROR starts the best inactive group: the only socket of group 1 (ESTABLISHED) reports ERROR_TRANSPORT; no group is
+   ESTABLISHED any more; group 2, the first CLOSED one, is started (both sockets), group 3 is not *)
+Example ex_error_starts_best_inactive :
+  mrun (HM (Some 1%nat))
+    (rtr_mgr_cb_gen (0%nat, 0%nat) mgr_c_RTR_ERROR_TRANSPORT (Some 0%nat)
+       (enc c0 [mkGroup 1 GEstablished [mkSock SErrTransport true true]; mkGroup 2 GClosed [idle; idle];
+                mkGroup 3 GClosed [idle]])) =
+  Some (0, enc c0 [mkGroup 1 GError [mkSock SErrTransport true true]; mkGroup 2 GConnecting [conn; conn];
+                   mkGroup 3 GClosed [idle]],
+        [OStatus 1 GError (Some (1%nat, 0%nat)) [mkSock SErrTransport true true]; OStart 2 0 true; OStart 2 1 true]).
+Proof. vm_compute. reflexivity. Qed.
+
+(* ERROR -> ESTABLISHED recovery: group 2 is in ERROR, its socket reports ESTABLISHED; the more preferred group 1 is in
+   ERROR too (it does not block), so group 2 becomes ESTABLISHED and the less preferred group 3 is closed *)
+Example ex_error_recovers_to_established :
+  mrun (HM (Some 2%nat))
+    (rtr_mgr_cb_gen (1%nat, 0%nat) mgr_c_RTR_ESTABLISHED (Some 1%nat)
+       (enc c0 [mkGroup 1 GError [conn]; mkGroup 2 GError [up]; mkGroup 3 GConnecting [conn]])) =
+  Some (0, enc c0 [mkGroup 1 GError [conn]; mkGroup 2 GEstablished [up]; mkGroup 3 GClosed [closed_sock]],
+        [OStatus 2 GEstablished (Some (2%nat, 0%nat)) [up];
+         OStop 3 0 (Some 2%nat);
+         OStatus 3 GClosed (Some (3%nat, 0%nat)) [mkSock SShutdown false true];
+         OStatus 3 GClosed (Some (2%nat, 0%nat)) [closed_sock]]).
+Proof. vm_compute. reflexivity. Qed.
+(* ... and a more preferred group that is CONNECTING blocks the recovery *)
+Example ex_recovery_blocked :
+  mrun (HM (Some 2%nat))
+    (rtr_mgr_cb_gen (1%nat, 0%nat) mgr_c_RTR_ESTABLISHED (Some 1%nat)
+       (enc c0 [mkGroup 1 GConnecting [conn]; mkGroup 2 GError [up]; mkGroup 3 GConnecting [conn]])) =
+  Some (0, enc c0 [mkGroup 1 GConnecting [conn]; mkGroup 2 GError [up]; mkGroup 3 GConnecting [conn]],
+        [OStatus 2 GError (Some (2%nat, 0%nat)) [up]]).
+Proof. vm_compute. reflexivity. Qed.
+
+(* FINDING (about the model's bookkeeping, not the code): MgrModel.current = shipped, whose SHUTDOWN handler ignores
+   sockets in RTR_CLOSED; the code in /repo counts them as down (fix_shutdown_counts_closed).  The translated code
+   disagrees with mgr_cb shipped on this configuration: *)
+Example ex_shipped_variant_differs :
+  let l := [mkGroup 1 GEstablished [mkSock SShutdown true true; closed_sock]] in
+  mrun (HM (Some 1%nat)) (rtr_mgr_cb_gen (0%nat, 0%nat) mgr_c_RTR_SHUTDOWN (Some 0%nat) (enc c0 l)) =
+    Some (0, enc c0 (fst (mgr_cb fixed [] (mkGroup 1 GEstablished [mkSock SShutdown true true; closed_sock]) [] 0 SShutdown)),
+          snd (mgr_cb fixed [] (mkGroup 1 GEstablished [mkSock SShutdown true true; closed_sock]) [] 0 SShutdown)) /\
+  g_status (hd (mkGroup 0 GError []) (fst (mgr_cb fixed [] (mkGroup 1 GEstablished [mkSock SShutdown true true; closed_sock]) [] 0 SShutdown))) = GClosed /\
+  g_status (hd (mkGroup 0 GError []) (fst (mgr_cb shipped [] (mkGroup 1 GEstablished [mkSock SShutdown true true; closed_sock]) [] 0 SShutdown))) = GEstablished.
+Proof. vm_compute. repeat match goal with |- _ /\ _ => split end; reflexivity. Qed.
+
+(* without a status callback (conf->status_fp == NULL) the statuses change all the same and nothing is reported *)
+Example ex_no_status_fp :
+  mrun (HM (Some 1%nat))
+    (rtr_mgr_cb_gen (0%nat, 0%nat) mgr_c_RTR_CONNECTING (Some 0%nat) (enc [] [mkGroup 1 GClosed [conn]])) =
+  Some (0, enc [] [mkGroup 1 GConnecting [conn]], []).
+Proof. vm_compute. reflexivity. Qed.
+
+Example translator_has_no_problems : mgr_translator_problems = [].
+Proof. reflexivity. Qed.
+
+Print Assumptions is_synced_tie.
+Print Assumptions is_some_established_tie.
+Print Assumptions get_best_inactive_tie.
+Print Assumptions start_sockets_tie.
+Print Assumptions close_less_tie.
+Print Assumptions cb_shutdown_tie.
+Print Assumptions cb_established_tie.
+Print Assumptions cb_connecting_tie.
+Print Assumptions cb_error_tie.
+Print Assumptions mgr_cb_tie.
+Print Assumptions mgr_cb_null.
+
+(* SUMMARY.  c : the configuration's fields with status_fp <> NULL (conf_ok); v : any model variant with
+   fix_shutdown_counts_closed v = true (what /repo does); in_range l : every preference < 256 (uint8_t).
+   For all lists a, b of groups (any number of groups, any number of sockets each, any statuses):
+     is_synced_tie, is_some_established_tie, get_best_inactive_tie     (any handler, no side condition)
+     cb_shutdown_tie, cb_connecting_tie                                (any handler that reports status_fp calls)
+     start_sockets_tie, close_less_tie, cb_established_tie, cb_error_tie, mgr_cb_tie   (handler HM)
+   mgr_cb_tie:  mrun (HM (Some (g_pref g))) (rtr_mgr_cb_gen (|a|, k) (sstate_code st) (Some |a|) (enc c (a ++ g :: b)))
+                = Some (0, enc c (fst (mgr_cb v a g b k st)), snd (mgr_cb v a g b k st)).                          *)
